@@ -118,3 +118,41 @@ package p2pkeswarm
 //@     set innerok = res1 == nil
 //@   fnspec inner:
 //@     pure
+
+// the swarm's own identity is computed with the fingerprinter that is in force after every option
+// has been applied (no option runs after the local id was derived)
+//@ func New
+//@   noframe
+//@   allowpanic
+//@   ghostvar fpcalled = false
+//@   before call opt:
+//@     assert [optionsfirst] !ghost(fpcalled)
+//@   after call fingerprinter:
+//@     set fpcalled = true
+//@   fnspec opt:
+//@     pure
+//@   fnspec fingerprinter:
+//@     pure
+//@   fnspec PublicFromPrivate:
+//@     pure
+//@   loop 0:
+//@     invariant !ghost(fpcalled) && 0 <= _i && _i <= len(opts)
+//@   loop 1:
+//@     invariant true
+//@
+//@ func (*Swarm).recvLoop
+//@   trusted
+//@   noframe
+//@
+//@ func (*Swarm).cleanupLoop
+//@   trusted
+//@   noframe
+//@
+//@ func newDefaultConfig
+//@   trusted
+//@   noframe
+//@
+//@ func newStore
+//@   trusted
+//@   noframe
+//@   ensures ret != nil
